@@ -209,8 +209,7 @@ theorem early_output_stored_worst_layout :
 non-empty stored blocks (`Stored.IsStoredNE`: what `Stored.compress` writes — header, non-final stored blocks of
 1..65535 bytes, a final empty block, the Adler-32): any call on the first ≥ 192 bytes of such a stream that does
 not end it yields at least `min cap 28` content bytes (each block costs 5 header bytes and holds ≥ 1 content byte,
-so 190 stream bytes carry ≥ 31). (`DecompressorOk` is not proved for this codec, so `header_only_complete`
-is instantiated with the codec of Lemmas/C56Toy.lean only.) -/
+so 190 stream bytes carry ≥ 31). `stored_read_write` below instantiates `header_only_complete` with it. -/
 theorem early_output_stored : EarlyOutput Stored.decompressor Stored.IsStoredNE := Stored.earlyOutput
 
 -- non-vacuity: a stream of that shape (two one-byte blocks)
@@ -218,5 +217,39 @@ example : Stored.IsStoredNE
     ([0x78, 0x01] ++ (Stored.encBlocks [[7], [9]] ++ (Stored.blockHeader true 0 ++ Stored.adlerBytes (Stored.adler (1, 0) [7, 9]))))
     [7, 9] :=
   ⟨[[7], [9]], by intro b hb; simp at hb; rcases hb with h | h <;> subst h <;> simp, rfl, rfl⟩
+
+/-! ### everything above, for the codec the drivers run -/
+
+/-- The loose-store theorems instantiated with the stored-block codec the Lean drivers EXECUTE
+(`CompressorOk`, `DecompressorOk`, `EarlyOutput` are all PROVED for it: Lemmas/C56Stored.lean,
+Lemmas/C56StoredD.lean, Lemmas/C11Stored.lean), with the fuel the driver passes (`Stored.fuelFor`): for every
+kind and body in any pieces the write succeeds with the id `compute_hash` computes; WHAT THE DRIVER'S
+COMPRESSOR WROTE IS A `Stored.IsStoredNE` STREAM of `header ++ body` (the shape `early_output_stored` is
+about); `find_inner` reads it back exactly; `try_header` returns its size and kind whatever the file size;
+and every strict prefix of the file is an error. -/
+theorem stored_read_write (f : BlockFn) (k : Kind) (chunks : List Bytes) :
+    ∃ w, storeWrite Stored.compressor f (fun w b => Stored.fuelFor w b.length) (fun w => Stored.fuelFor w 0)
+        (looseHeader k chunks.flatten.length :: chunks) = .ok w ∧
+      w.id = computeHash f k chunks.flatten ∧
+      Stored.IsStoredNE w.content (looseHeader k chunks.flatten.length ++ chunks.flatten) ∧
+      (w.content.length + chunks.flatten.length + 28 < 2 ^ 63 →
+        findInner Stored.decompressor w.content = .ok k chunks.flatten ∧
+        tryHeader Stored.decompressor w.content = .ok chunks.flatten.length k ∧
+        ∀ p, p <+: w.content → p ≠ w.content → ∃ e, findInner Stored.decompressor p = .err e) := by
+  obtain ⟨w, h1, h2, h3, _⟩ := write_is_git_object Stored.compressorOk f
+    (fun w b => Stored.fuelFor w b.length) (fun w => Stored.fuelFor w 0)
+    (by intro w c; simp only [Stored.compressorOk, Stored.fuelFor]; split <;> omega)
+    (by intro w; simp only [Stored.compressorOk, Stored.fuelFor]; split <;> omega) k chunks
+  refine ⟨w, h1, h2, h3, fun hsz => ⟨?_, ?_, ?_⟩⟩
+  · exact read_back_exact Stored.decompressorOk k chunks.flatten w.content h3 hsz
+  · exact header_only_complete Stored.decompressorOk Stored.earlyOutput k chunks.flatten w.content h3 (by omega)
+  · intro p hp hne
+    exact truncated_is_error Stored.decompressorOk k chunks.flatten w.content p h3 hp hne hsz
+
+/-- the executed inflater stays within its slices for ANY state and input, so `find_inner` over it never
+panics and never runs out of fuel, whatever the file -/
+theorem stored_find_never_panics (file : Bytes) :
+    findInner Stored.decompressor file ≠ .panic ∧ findInner Stored.decompressor file ≠ .outOfFuel :=
+  find_never_panics (D := Stored.decompressor) Stored.decompressorBounded file
 
 end GixModel.Props.C11
